@@ -461,6 +461,7 @@ def r20_6(ctx):
 LINE_PROBES = [
     # (line, kept?, why)
     ("#define fA(x) x\n", True, "a definition"),
+    ("  \t\n", True, "a line of blanks only (it ends a macro that the line before continues with a backslash; dropped, the next #define is spliced into that macro)"),
     ("// note\n", False, "line comment"),
     ("    // note\n", False, "indented line comment"),
     ("/* note */\n", False, "block comment on its own line"),
